@@ -63,6 +63,16 @@ Proof. exact check_crash_sound. Qed.
 Theorem C09_consistentb_iff : forall R used, consistentb R used = true <-> Consistent R used.
 Proof. exact consistentb_iff. Qed.
 
+(* Finding F-C09-1 (refutation witness): PlanPrune's keepBlobs reduction does not skip ignorePacks; on a
+   consistent repository it can produce a plan that loses a needed blob; skipping them repairs it. *)
+Theorem C09_keep_reduction_refuted :
+  exists R0 used ents rmrep ignore ob,
+    Consistent R0 used /\
+    valid_planb R0 used (mkPl [] rmrep (rmrep ++ ignore) (keep_blobs used ents rmrep) ob) = false /\
+    valid_planb R0 used (mkPl [] rmrep (rmrep ++ ignore) (keep_blobs_fixed used ents rmrep ignore) ob) = true.
+Proof. exact keep_reduction_refuted. Qed.
+
+Print Assumptions C09_keep_reduction_refuted.
 Print Assumptions C09_prune_prefix_safe.
 Print Assumptions C09_prune_prefix_no_new_dangling.
 Print Assumptions C09_selection_unique.
